@@ -1,0 +1,6 @@
+//go:build !verif
+
+package evalfilter
+
+// verifLock is a hook for the verification harness (build tag `verif`).
+func verifLock(e *Eval, ev string) {}
